@@ -54,5 +54,5 @@ def check(case) -> Result:
 
 def parts(tier):
     if tier == 'quick':
-        return [Part('chains', check, strategy=G.s_case(max_len=6, max_steps=30), examples=350, shards=4)]
-    return [Part('chains', check, strategy=G.s_case(max_len=11, max_steps=120), examples=2500, shards=16)]
+        return [Part('chains', check, strategy=G.s_case(max_len=6, max_steps=30, nonmultiple=True), examples=350, shards=4)]
+    return [Part('chains', check, strategy=G.s_case(max_len=11, max_steps=120, nonmultiple=True), examples=2500, shards=16)]
